@@ -219,6 +219,8 @@ func (c *Ctx) finish(start time.Time, seed int64) int {
 			"not_decided":          c.notDecided,
 			"notes":                c.notes,
 			"checker_cmd":          fmt.Sprintf("./run.sh %s %s", c.prop, c.tier),
+			"vta_call_graph_used":  c.thorough,
+			"vta_only_callers":     c.vtaExtra,
 		},
 		"assumptions": append([]string{
 			"Go 1.24.2 type checker and golang.org/x/tools v0.29.0 go/ssa build a faithful IR of /repo's working tree",
